@@ -837,6 +837,8 @@ class MemoryPathIO(AbstractPathIO):
             snode = self.get_node(source)
             if None in (snode, dparent):
                 raise FileNotFoundError
+            if source in destination.parents:
+                raise OSError("Can not move directory into itself")
             for i, node in enumerate(sparent.content):
                 if node.name == source.name:
                     sparent.content.pop(i)
